@@ -36,10 +36,52 @@ theorem candidates_order (fs : FS) (c : PutCfg) (volume : Bytes) (h : c.trashDir
   Proofs.C07.candidates_order fs c volume h
 
 /-- The same-volume gate lets a candidate through only when the volume of the *resolved* trash
-    directory is the volume of the file's resolved parent. -/
+    directory is the volume of the file's resolved parent.
+    RESTATED after the fix of `TrashDirVolumeReader.volume_of_trash_dir` (no `os.path.normpath`
+    before `realpath`): the path resolved is the candidate's path AS SPELLED; the statement formerly
+    read `realpathStr fs c.cwd (normpath cand.path)`.  (That former statement is false for the code as
+    it is now: second example below.) -/
 theorem gate_same_volume (fs : FS) (c : PutCfg) (volume : Bytes) (cand : Candidate) (hg : cand.gate = .sameVolume) :
-    gateCheck fs c volume cand = none ↔ volumeOf fs c.cwd (realpathStr fs c.cwd (normpath cand.path)) = volume :=
+    gateCheck fs c volume cand = none ↔ volumeOf fs c.cwd (realpathStr fs c.cwd cand.path) = volume :=
   Proofs.C07.gate_same_volume fs c volume cand hg
+
+/-- The gate reads the trash directory NAMED: the volume compared with the file's is the volume of
+    the directory the kernel reaches from the path as spelled (`realpath(path)`), not the volume of
+    the textual collapse of the path (`realpath(normpath(path))`, the code before the fix: for
+    `--trash-dir X/link/../T` that is another directory, possibly on another volume). -/
+theorem gate_reads_named_trash_dir (fs : FS) (c : PutCfg) (volume : Bytes) (cand : Candidate) (hg : cand.gate = .sameVolume) :
+    gateCheck fs c volume cand = none ↔ volumeOf fs c.cwd (realpathStr fs c.cwd cand.path) = volume :=
+  Proofs.C07.gate_reads_named_trash_dir fs c volume cand hg
+
+/-- A two-volume world: mount points `/` and `/v`, the link `/v/jump -> /v/deep/inner`, the trash
+    directory `/v/ct`, spelled `--trash-dir /v/jump/../../ct`.  The kernel follows the link, goes up
+    twice and names `/v/ct` on the volume `/v`: the gate accepts a file of the volume `/v` and refuses
+    one of `/`.  The textual collapse of the spelling is "/ct", on the volume `/`: with `normpath`
+    first the gate decided the other way round in both cases. -/
+example :
+    Proofs.C07.NamedEx.cand.path = b "/v/jump/../../ct" ∧ Proofs.C07.NamedEx.cand.gate = .sameVolume ∧
+    Proofs.C07.NamedEx.W.isMount [b "v"] = true ∧
+    realpathStr Proofs.C07.NamedEx.W Proofs.C07.NamedEx.cfg.cwd Proofs.C07.NamedEx.cand.path = b "/v/ct" ∧
+    volumeOf Proofs.C07.NamedEx.W Proofs.C07.NamedEx.cfg.cwd
+      (realpathStr Proofs.C07.NamedEx.W Proofs.C07.NamedEx.cfg.cwd Proofs.C07.NamedEx.cand.path) = b "/v" ∧
+    gateCheck Proofs.C07.NamedEx.W Proofs.C07.NamedEx.cfg (b "/v") Proofs.C07.NamedEx.cand = none ∧
+    gateCheck Proofs.C07.NamedEx.W Proofs.C07.NamedEx.cfg (b "/") Proofs.C07.NamedEx.cand = some .differentVolumes ∧
+    normpath Proofs.C07.NamedEx.cand.path = b "/ct" ∧
+    volumeOf Proofs.C07.NamedEx.W Proofs.C07.NamedEx.cfg.cwd
+      (realpathStr Proofs.C07.NamedEx.W Proofs.C07.NamedEx.cfg.cwd (normpath Proofs.C07.NamedEx.cand.path)) = b "/" ∧
+    gateCheck Proofs.C07.NamedEx.W Proofs.C07.NamedEx.cfg (b "/v")
+      { Proofs.C07.NamedEx.cand with path := normpath Proofs.C07.NamedEx.cand.path } = some .differentVolumes ∧
+    gateCheck Proofs.C07.NamedEx.W Proofs.C07.NamedEx.cfg (b "/")
+      { Proofs.C07.NamedEx.cand with path := normpath Proofs.C07.NamedEx.cand.path } = none :=
+  ⟨rfl, rfl, by decide +kernel, Proofs.C07.NamedEx.named_gate⟩
+
+/-- … so the FORMER statement of `gate_same_volume` (with `normpath cand.path`) does not hold of the
+    code as it is now: there the gate is open while the volume of the collapsed path is not the file's. -/
+example :
+    ¬ (∀ (fs : FS) (c : PutCfg) (volume : Bytes) (cand : Candidate), cand.gate = .sameVolume →
+        (gateCheck fs c volume cand = none ↔
+          volumeOf fs c.cwd (realpathStr fs c.cwd (normpath cand.path)) = volume)) :=
+  Proofs.C07.NamedEx.former_statement_false
 
 /-- The fallback gate opens iff TRASH_ENABLE_HOME_FALLBACK is exactly "1" (the flag alone is not enough:
     fallback candidates exist only with --home-fallback, see `candidates_order`). -/
